@@ -23,13 +23,13 @@ run_demo() {
     local crate; crate="$(cat "$D/crate.txt" 2>/dev/null || echo ragc-core)"
     mkdir -p "$WT/$crate/tests"
     cp "$D/demo.rs" "$WT/$crate/tests/seeded_demo.rs"
-    timeout 900 cargo test --offline -p "$crate" --test seeded_demo >>"$LOG" 2>&1
+    timeout 2400 cargo test --offline -p "$crate" --test seeded_demo >>"$LOG" 2>&1
     local rc=$?
     rm -f "$WT/$crate/tests/seeded_demo.rs"
     return $rc
   else
-    timeout 600 cargo build --offline --release -p ragc-cli --bin ragc >>"$LOG" 2>&1 || return 99
-    timeout 900 bash "$D/demo.sh" "$CARGO_TARGET_DIR/release/ragc" >>"$LOG" 2>&1
+    timeout 3000 cargo build --offline --release -p ragc-cli --bin ragc >>"$LOG" 2>&1 || return 99
+    timeout 1800 bash "$D/demo.sh" "$CARGO_TARGET_DIR/release/ragc" >>"$LOG" 2>&1
   fi
 }
 
@@ -43,7 +43,7 @@ say "== 3. test suite with the change"
 # a few existing tests use fixed /tmp paths and collide with other jobs running the same suite:
 # a failing run is repeated (up to 3 runs); only a suite that fails every time counts as failing
 for attempt in 1 2 3; do
-  timeout 1800 cargo test --workspace --no-fail-fast --offline >"$D/confirm-tests.log" 2>&1; rc=$?
+  timeout 3600 cargo test --workspace --no-fail-fast --offline >"$D/confirm-tests.log" 2>&1; rc=$?
   [ $rc -eq 0 ] && break
   say "   (suite run $attempt failed: $(grep -E '^test .* FAILED' "$D/confirm-tests.log" | head -3 | tr '\n' ' '))"
 done
